@@ -262,36 +262,56 @@ def h_aggregate_mint(ctx, tier, seed):
     T = TIR(eng)
     x = ctx.sym_int("x", "i128"); y = ctx.sym_int("y", "i128")
     eng.assume(z3.And(x >= 1, x < (1 << 63), y >= 1, y < (1 << 63)))
-    burn = eng.choose(2, "both blocks are burns") == 1
+    kind = eng.choose(3, "two mints / two burns / a mint and a burn")
+    burn = kind == 1
     blk = lambda a: T.st("Mint", amount=T.assets([T.asset(T.bytes([4] * 28), T.bytes([0x41]), T.num(a))]), redeemer=T.none())
-    tx = mk_tx(T, **{("burns" if burn else "mints"): [blk(x), blk(y)]})
+    if kind == 2:
+        tx = mk_tx(T, mints=[blk(x)], burns=[blk(y)])
+        want = x - y
+        fits = z3.BoolVal(True)
+    else:
+        tx = mk_tx(T, **{("burns" if burn else "mints"): [blk(x), blk(y)]})
+        want = -(x + y) if burn else (x + y)
+        fits = (x + y <= (1 << 63)) if burn else (x + y < (1 << 63))
     try:
         r = models.deref(eng.call_fn(eng.find(short="compile_mint_block"), [ref_to_value(tx)]))
     except Panic as p:
         eng.stats.panic_paths += 1
         ctx.violation("compile_mint_block panicked: %s" % p.kind, site=p.site, shape="mint aggregation: %s" % p.kind)
         return
-    fits = (x + y <= (1 << 63)) if burn else (x + y < (1 << 63))
     if r.variant != "Ok":
         ctx.require(z3.Not(fits), "a representable mint total is accepted", shape="representable mint total rejected")
         return
     o = models.deref(r.fields[0])
-    ctx.require(o.variant == "Some", "the mint field is present", shape="mint total dropped")
-    if o.variant != "Some":
-        return
     amt = None
-    for k, p, v in models.deref(o.fields[0]).entries:
-        for a, ap, q in models.deref(v).entries:
-            if p is not False and ap is not False:
-                q = models.deref(q)
-                amt = q.fields[0] if isinstance(q, Agg) else q
-    ctx.require(amt is not None, "the asset is present in the mint field", shape="mint total dropped")
-    if amt is not None:
-        want = -(x + y) if burn else (x + y)
-        ctx.require(z3.SignExt(64, eng.to_bv(amt, 64)) == want, "the mint quantity is the exact total", shape="mint total wrapped")
+    if o.variant == "Some":
+        for k, p, v in models.deref(o.fields[0]).entries:
+            for a, ap, q in models.deref(v).entries:
+                if p is not False and ap is not False:
+                    q = models.deref(q)
+                    amt = q.fields[0] if isinstance(q, Agg) else q
+    if amt is None:
+        ctx.require(want == 0, "the asset is left out of the mint field only when mint and burn cancel", shape="mint total dropped")
+    else:
+        ctx.require(z3.And(want != 0, z3.SignExt(64, eng.to_bv(amt, 64)) == want), "the mint quantity is the exact net total (mint - burn)", shape="mint total wrapped")
 
 
 HARNESSES += [
     _h("c02m_aggregate_token", h_aggregate_token, "output naming one token twice, amounts in [1, 2^64)", crates=["tx3-cardano", "tx3-tir"]),
-    _h("c02m_aggregate_mint", h_aggregate_mint, "two mint (or two burn) blocks of one asset class, amounts in [1, 2^63)", crates=["tx3-cardano", "tx3-tir"]),
+    _h("c02m_aggregate_mint", h_aggregate_mint, "two mint blocks, two burn blocks, or a mint and a burn block of one asset class, amounts in [1, 2^63)", crates=["tx3-cardano", "tx3-tir"]),
 ]
+
+
+def h_resolver_balance(ctx, tier, seed):
+    """ledger balance through the resolver: a template that spends two blocks of one party and pays
+    out `a + b - fees` balances only if the two blocks are bound to *different* UTxOs (the output is
+    computed from both bindings, the body consumes each UTxO once).  Runs the C04 harness
+    (real resolve + compile_inputs from MIR) with its disjointness obligations."""
+    import mharness
+    from harness import c04
+    eng = mharness.engine_for(c04.CRATES)
+    ctx.eng = eng
+    c04.h_blocks(ctx, tier, seed, n=2, shape="two_same")
+
+
+HARNESSES.append(_h("c02m_resolver_balance", h_resolver_balance, "2 input blocks of one party over a store of 2 UTxOs (amounts symbolic): a UTxO is consumed once and counted once", crates=["tx3-resolver", "tx3-tir", "tx3-cardano"], max_paths=400000, time_limit=1200))
